@@ -72,6 +72,32 @@ theorem mapGet_mapSet_ne {β : Type} (m : List (Str × β)) (k k2 : Str) (v : β
       · subst hk2; simp [mapSet, mapGet, hk]
       · simp [mapSet, mapGet, hk, hk2, ih]
 
+/-- a first-wins map answers with the first entry of the list, whatever keys repeat -/
+theorem mapGet_foldl_first {α β : Type} (key : α → Str) (val : α → β) (k : Str) (xs : List α) :
+    ∀ (m : List (Str × β)), mapGet (xs.foldl (fun m x => mapSetNew m (key x) (val x)) m) k =
+      match mapGet m k with
+      | some v => some v
+      | none => (xs.find? (fun x => key x = k)).map val := by
+  induction xs with
+  | nil => intro m; simp only [List.foldl_nil, List.find?_nil, Option.map_none]; cases mapGet m k <;> rfl
+  | cons x r ih =>
+    intro m
+    rw [List.foldl_cons, ih]
+    by_cases hk : key x = k
+    · cases hm : mapGet m (key x) with
+      | some v => simp [mapSetNew, hm, ← hk]
+      | none =>
+        have : mapGet m k = none := hk ▸ hm
+        simp [mapSetNew, hm, ← hk, mapGet_mapSet_eq]
+    · cases hm : mapGet m (key x) with
+      | some v => simp [mapSetNew, hm, hk]
+      | none => simp [mapSetNew, hm, mapGet_mapSet_ne _ _ _ _ hk, hk]
+
+theorem mapGet_mapOfListFirst {α β : Type} (key : α → Str) (val : α → β) (xs : List α) (k : Str) :
+    mapGet (mapOfListFirst key val xs) k = (xs.find? (fun x => key x = k)).map val := by
+  have := mapGet_foldl_first key val k xs []
+  simpa [mapOfListFirst, mapGet] using this
+
 theorem mapGet_none_of_not_mem {β : Type} (m : List (Str × β)) (k : Str) (h : k ∉ m.map Prod.fst) : mapGet m k = none := by
   induction m with
   | nil => rfl
@@ -145,11 +171,9 @@ def Const.ok (c : Const) : Prop := AnnosOK c.annos
 def Function.ok (m : Function) : Prop := AnnosOK m.annos ∧ (∀ f ∈ m.args, f.ok) ∧ ∀ f ∈ m.throws, f.ok
 def Service.ok (s : Service) : Prop := AnnosOK s.annos ∧ ∀ m ∈ s.functions, m.ok
 
-/-- the shapes `describe_faithful` covers: pairwise distinct include base names, namespace languages
-and annotation keys -/
+/-- the shapes `describe_faithful` covers: pairwise distinct include base names and annotation keys -/
 structure File.Canonical (f : File) : Prop where
   incl : (f.includes.map baseName).Nodup
-  ns : (f.namespaces.map Namespace.lang).Nodup
   typedefs : ∀ t ∈ f.typedefs, t.ok
   consts : ∀ c ∈ f.consts, c.ok
   enums : ∀ e ∈ f.enums, e.ok
@@ -223,7 +247,7 @@ theorem facts_file (f : File) (h : f.Canonical) : factsOf (describe f) = forget 
     rw [mapGet_mapOfList baseName id f.includes h.incl a]
     cases f.includes.find? (fun x => baseName x = a) <;> simp
   · funext l
-    rw [mapGet_mapOfList Namespace.lang Namespace.name f.namespaces h.ns l]
+    rw [mapGet_mapOfListFirst Namespace.lang Namespace.name f.namespaces l]
 
 /-! ### the include structure -/
 
@@ -571,6 +595,9 @@ theorem method_of_stamped (uuid p : Str) (s : Service) (m : Str) :
       (s.functions.find? (fun f => f.name = m)).map (fun f => uuidMethod uuid (descMethod p f)) := by
   simp only [ServiceDesc.methodByName, uuidService, descService, find?_map', Option.map_map]; rfl
 
+/-- registerGlobalUUID stamps the type descriptor of a constant like every other type descriptor -/
+theorem const_type_stamped (uuid p : Str) (c : Const) : (uuidConst uuid (descConst p c)).ty = uuidTy uuid (descTy p c.ty) := rfl
+
 theorem lookupMethod_eq (W : World) (g : Option GFD) (path svc m : Str) (h : svc ≠ []) :
     lookupMethod W g path svc m = (lookupIn W g path svc lookService).bind (·.methodByName m) := by
   simp only [lookupMethod, lookupIn, getMethodDescriptor, h, if_false]
@@ -588,11 +615,6 @@ theorem field_by_id (p : Str) (s : StructLike) (i : Int) :
 theorem method_by_name (p : Str) (s : Service) (n : Str) :
     (descService p s).methodByName n = (s.functions.find? (fun f => f.name = n)).map (descMethod p) := by
   simp only [ServiceDesc.methodByName, descService, find?_map']; rfl
-
-/-- registerGlobalUUID does not stamp the type descriptor of a constant -/
-theorem const_type_not_stamped (uuid p : Str) (c : Const) : (uuidConst uuid (descConst p c)).ty.extra = none := by
-  cases h : c.ty with
-  | mk n k v => simp [uuidConst, descConst, h, descTy, TypeDesc.extra]
 
 theorem globalOf_none (W : World) : W.globalOf none = some W.dflt := by simp [World.globalOf]
 
